@@ -2,8 +2,6 @@
 //! correspondence (`gen`) and the failure-search oracle (`oracle`: a `Vec<Vec<f64>>` reference model).
 #![allow(clippy::needless_range_loop)]
 use crate::util::*;
-#[path = "c15_util.rs"]
-mod c15_util;
 use compute::linalg::{
     arange, col_to_row_major, design, diag, diag_matrix, is_design, is_square, is_symmetric, linspace, rotation_matrix_ccw,
     rotation_matrix_cw, row_to_col_major, toeplitz, transpose, vandermonde, Axis, Matrix, Vector,
